@@ -1,4 +1,5 @@
 import PdtVerif.Lemmas.CheckpointRounding
+import PdtVerif.Lemmas.CheckpointOrder
 /-!
 # C16 — a crash during an epoch update never loses the last or best checkpoint
 
@@ -7,7 +8,8 @@ makes them — every `f.write` of a history line is a call of its own; `Quirks.f
 `fixes/C16-*.diff` applied, `Quirks.pinned` = the pinned tree). Spec: `Spec/Recoverable.lean` (`Rec`,
 `RecAt`, `ExactLB`, `AllLoadable`, `RecAll`, `Inj`, `SafeAt`, `SafeFmt`, `Sep`). Proofs:
 `Lemmas/Checkpoint.lean`, `Lemmas/CheckpointFormats.lean`, `Lemmas/CheckpointLr.lean`,
-`Lemmas/CheckpointRounding.lean` (this file states the property theorems and instantiates them).
+`Lemmas/CheckpointRounding.lean`, `Lemmas/CheckpointOrder.lean` (this file states the property theorems and
+instantiates them).
 
 `SafeAt P vals k`: the update of epoch `k+1` is checkpoint-first (does not refuse, `save_info_first`
 is `False`) — a condition on the two file-name formats and the metric history. `SafeFmt P vals`: all
@@ -736,5 +738,211 @@ example := C16_keepall_step (P := exPall) ⟨fun _ _ h => h, fun _ _ h => h⟩ r
   ⟨recAt_of_recOk (by decide) (by decide), by intro j h1 h2; have : j = 1 := by omega
                                               subst this; decide⟩
   (by decide) _ _ rfl 7
+
+/-! ## crash safety does not depend on the order of the eight calls of the save
+
+`save_model_and_optimizer_with_info` is two pipelines — `makedirs`, create a temp file next to the destination,
+write the state dict into it, `os.replace` it onto the checkpoint path — `pipeM` for the model, `pipeO` for the
+optimizer. The pinned code runs them as `saveOps` (both temp files complete, then the two renames).
+`Shuffle (pipeM …) (pipeO …) sv`: `sv` is ANY interleaving of the two (each pipeline in its own order): the
+model's checkpoint in place before the optimizer's temp file exists, both temp files created first, the
+optimizer first, … `saveOrders` enumerates them, `updateOrders` adds the history lines and the clean-up (any
+order), `crashMatch` is the matcher the correspondence driver runs on what an implementation was seen to do. -/
+
+/-- `saveOrders` is exactly the set of interleavings, and the pinned order is one of them. -/
+theorem C16_save_orders (P : Params) (d : Disk) (e : Nat) (s : St) (sv : List FsOp) :
+    (sv ∈ saveOrders P d e s ↔ Shuffle (pipeM P d e s) (pipeO P d e s) sv) ∧
+      saveOps P d e s ∈ saveOrders P d e s :=
+  ⟨mem_shuffles_iff _ _ _, saveOps_mem_saveOrders P d e s⟩
+
+/-- **The order does not matter for what is on disk afterwards**: from ANY disk, every interleaving of the two
+pipelines leaves the same file under every path and the same history as the pinned order. -/
+theorem C16_save_any_order_same_disk {P : Params} {d0 : Disk} {e : Nat} {s : St} {sv : List FsOp}
+    (hsh : Shuffle (pipeM P d0 e s) (pipeO P d0 e s) sv) (d : Disk) :
+    (∀ q, (exec d sv).files.get q = (exec d (saveOps P d0 e s)).files.get q) ∧
+      (exec d sv).csv = (exec d (saveOps P d0 e s)).csv :=
+  save_any_eqv hsh d
+
+/-- **`C16_rec_step` for every order of the save**: from any recoverable disk, after ANY prefix of the calls of
+a checkpoint-first update — the eight calls of the save in any interleaving of the two pipelines, then
+`open(csv)`, header line, data row, then any part of the clean-up in any order — a new controller reads a
+prefix of the uninterrupted history and loads exactly the states saved for the last and the best epoch. -/
+theorem C16_rec_step_any_order {P : Params} (vals : List (Option Int)) (tr : Train) (d : Disk)
+    (hrec : Rec P vals tr d) (k : Nat) (hk : recorded d = some k) (hlt : k < vals.length)
+    (hs : SafeAt P vals k) (hsep : Sep P vals k) (sv : List FsOp)
+    (hsh : Shuffle (pipeM P d (k + 1) (U tr (k + 1))) (pipeO P d (k + 1) (U tr (k + 1))) sv)
+    (cl' : List Path) (hcl : ∀ p ∈ cl', p ∈ cleanSet P vals k d) (i : Nat) :
+    Rec P vals tr (exec d ((opsOf (sv ++ histOps Quirks.fixed d (k + 1)) cl').take i)) :=
+  c16_rec_step_any_order vals tr d hrec k hk hlt hs hsep sv hsh cl' hcl i
+
+/-- … also when call `i` is executed half-way and is not the write of a history data row (`hat`). -/
+theorem C16_rec_step_torn_any_order {P : Params} (vals : List (Option Int)) (tr : Train) (d : Disk)
+    (hrec : Rec P vals tr d) (k : Nat) (hk : recorded d = some k) (hlt : k < vals.length)
+    (hs : SafeAt P vals k) (hsep : Sep P vals k) (sv : List FsOp)
+    (hsh : Shuffle (pipeM P d (k + 1) (U tr (k + 1))) (pipeO P d (k + 1) (U tr (k + 1))) sv)
+    (cl' : List Path) (hcl : ∀ p ∈ cl', p ∈ cleanSet P vals k d) (i : Nat)
+    (hat : ∀ e, (opsOf (sv ++ histOps Quirks.fixed d (k + 1)) cl')[i]? ≠ some (.hwrite (.row e))) :
+    Rec P vals tr (tornDisk tear d (opsOf (sv ++ histOps Quirks.fixed d (k + 1)) cl') i) :=
+  c16_rec_step_torn_any_order vals tr d hrec k hk hlt hs hsep sv hsh cl' hcl i hat
+
+/-- The complete update in any order: `k+1` epochs recorded, recoverable, and the disk is the pinned order's
+(same file under every path, same history). -/
+theorem C16_rec_full_any_order {P : Params} (vals : List (Option Int)) (tr : Train) (d : Disk)
+    (k : Nat) (hrec : RecAt P vals tr d k) (hlt : k < vals.length)
+    (hs : SafeAt P vals k) (hsep : Sep P vals k) (sv : List FsOp)
+    (hsh : Shuffle (pipeM P d (k + 1) (U tr (k + 1))) (pipeO P d (k + 1) (U tr (k + 1))) sv)
+    (cl' : List Path) (hcl : ∀ p ∈ cl', p ∈ cleanSet P vals k d) :
+    RecAt P vals tr (exec d (opsOf (sv ++ histOps Quirks.fixed d (k + 1)) cl')) (k + 1) ∧
+    (exec d (opsOf (sv ++ histOps Quirks.fixed d (k + 1)) cl')).Eqv
+      (exec d (opsOf (saveOps P d (k + 1) (U tr (k + 1)) ++ histOps Quirks.fixed d (k + 1)) cl')) :=
+  c16_rec_full_any_order vals tr d k hrec hlt hs hsep sv hsh cl' hcl
+
+/-- Keep-last-and-best, formats with `{epoch}`: a complete update in any order of the save, the whole clean-up
+in any order, keeps "exactly the files of the last and the best epoch". -/
+theorem C16_exact_step_any_order {P : Params} (hi : Inj P) (hkeep : P.keepLB = true) (vals : List (Option Int))
+    (tr : Train) (d : Disk) (k : Nat) (hex : ExactLB P vals d k) (hk : k < vals.length) (sv : List FsOp)
+    (hsh : Shuffle (pipeM P d (k + 1) (U tr (k + 1))) (pipeO P d (k + 1) (U tr (k + 1))) sv)
+    (cl' : List Path) (hcl : ∀ p, p ∈ cl' ↔ p ∈ cleanSet P vals k d) :
+    ExactLB P vals (exec d (opsOf (sv ++ histOps Quirks.fixed d (k + 1)) cl')) (k + 1) :=
+  c16_exact_step_any_order hi hkeep vals tr d k hex hk sv hsh cl' hcl
+
+/-- Keep-everything, formats with `{epoch}`: every single call of an update in any order of the save keeps every
+recorded epoch loadable with its own state. -/
+theorem C16_keepall_step_any_order {P : Params} (hi : Inj P) (hkeep : P.keepLB = false)
+    (vals : List (Option Int)) (tr : Train) (d : Disk) (k : Nat) (h : RecAll P vals tr d k)
+    (hlt : k < vals.length) (sv : List FsOp)
+    (hsh : Shuffle (pipeM P d (k + 1) (U tr (k + 1))) (pipeO P d (k + 1) (U tr (k + 1))) sv) (i : Nat) :
+    ∃ k', RecAll P vals tr (exec d ((opsOf (sv ++ histOps Quirks.fixed d (k + 1)) []).take i)) k' :=
+  c16_keepall_step_any_order hi hkeep vals tr d k h hlt sv hsh i
+
+/-- **What the correspondence harness relies on.** The file-system changes an implementation was seen to make
+before it was killed inside an update (`obs`: no-op calls — `makedirs`, `open` of an existing history file —
+dropped; `tornOp`: the half-written temp file it died in, if any, NOT a half-written history row; `unwind`:
+temp files it removed again while the interrupt unwound) are accepted by `crashMatch` only if they are the
+beginning of an order the model admits, and then the disk the driver reports (`crashDisk`) is recoverable. The
+judgement is on what is on disk, never on which call made it. -/
+theorem C16_crashMatch_rec {P : Params} (vals : List (Option Int)) (tr : Train) (d : Disk)
+    (hrec : Rec P vals tr d) (k : Nat) (hk : recorded d = some k) (hlt : k < vals.length)
+    (hs : SafeAt P vals k) (hsep : Sep P vals k) (rm : List Path) (obs : List FsOp) (tornOp : Option FsOp)
+    (L : List FsOp)
+    (hm : crashMatch (updateOrders Quirks.fixed P vals k d (U tr (k + 1)) rm) d obs tornOp = some L)
+    (hat : tornOp ≠ some (.hwrite .torn)) (unwind : List FsOp) (hu : unwindOk unwind = true) :
+    Rec P vals tr (exec (crashDisk d L obs tornOp) unwind) :=
+  c16_crashMatch_rec vals tr d hrec k hk hlt hs hsep rm obs tornOp L hm hat unwind hu
+
+/-- A process lifetime that ends in a kill — new controller, load, any number of complete updates, any number
+of calls of the next one (possibly inside a `torch.save`), EVERY update in any admitted order — leaves a
+recoverable disk. -/
+theorem C16_rec_killed_any_order {P : Params} (vals : List (Option Int)) (hs : SafeFmt P vals) (tr : Train)
+    (d d' : Disk) (hrec : Rec P vals tr d) (hk : KilledAny Quirks.fixed P vals tr d d') :
+    Rec P vals tr d' :=
+  c16_rec_killed_any_order vals hs tr d d' hrec hk
+
+/-- **Resume, any order.** From the blank disk: any number of such lifetimes, then one that completes all the
+remaining updates, every update of every lifetime in any admitted order: all epochs recorded, last and best
+loadable with the uninterrupted run's states, the process ends holding the uninterrupted final state, the
+history file is the one of the uninterrupted run of the pinned order. -/
+theorem C16_resume_any_order {P : Params} (vals : List (Option Int)) (hs : SafeFmt P vals) (tr : Train)
+    (hn : 0 < vals.length) (d : Disk) (hch : CrashesAny Quirks.fixed P vals tr Disk.blank d)
+    (k : Nat) (s s' : St) (d' : Disk) (hst : startSession P d = some (k, s))
+    (hrun : RunsAny Quirks.fixed P vals tr k s d vals.length s' d') :
+    RecAt P vals tr d' vals.length ∧ s' = U tr vals.length ∧
+      d'.csv = (runToEnd Quirks.fixed P vals tr Disk.blank).csv :=
+  c16_resume_any_order vals hs tr hn d hch k s s' d' hst hrun
+
+/-! ### non-vacuity: orders other than the pinned one, on the disk with garbage `exD1`, all hypotheses -/
+
+/-- the optimizer's pipeline completely before the model's (what the pinned code never does) -/
+def exSvO : List FsOp := pipeO exP exD1 2 (U exTr 2) ++ pipeM exP exD1 2 (U exTr 2)
+theorem exSvO_shuffle : Shuffle (pipeM exP exD1 2 (U exTr 2)) (pipeO exP exD1 2 (U exTr 2)) exSvO :=
+  Shuffle.append_swap _ _
+
+/-- both temp files created, then both written, then optimizer renamed before the model -/
+def exSvX : List FsOp :=
+  [.mkdirs, .mktemp 1, .mkdirs, .mktemp 2, .write 1 (.model 5), .write 2 (.optim ⟨7, 1⟩),
+   .replace 2 (.optim 2), .replace 1 (.model 2)]
+theorem exSvX_shuffle : Shuffle (pipeM exP exD1 2 (U exTr 2)) (pipeO exP exD1 2 (U exTr 2)) exSvX :=
+  .left (.left (.right (.right (.left (.right (.right (.left .nil)))))))
+
+example : exSvO ≠ saveOps exP exD1 2 (U exTr 2) ∧ exSvX ≠ saveOps exP exD1 2 (U exTr 2) := by decide
+
+/-- killed between the two renames of `exSvX` (call 7): the optimizer of epoch 2 is in place, the model is not,
+the history still records 1 epoch -/
+example : Rec exP exVals exTr (exec exD1 ((opsOf (exSvX ++ histOps Quirks.fixed exD1 2) [.optim 1, .model 1]).take 7)) :=
+  C16_rec_step_any_order exVals exTr exD1 exD1_rec 1 (by decide) (by decide)
+    (exP_inj.safeAt exVals 1) (exP_inj.sep exVals 1) exSvX exSvX_shuffle [.optim 1, .model 1] (by decide) 7
+
+example : (exec exD1 ((opsOf (exSvX ++ histOps Quirks.fixed exD1 2) [.optim 1, .model 1]).take 7)).files.get (.optim 2)
+    = some (.optim ⟨7, 1⟩) ∧
+  (exec exD1 ((opsOf (exSvX ++ histOps Quirks.fixed exD1 2) [.optim 1, .model 1]).take 7)).files.get (.model 2)
+    = none := by decide
+
+/-- the optimizer-first order, the model's `torch.save` (call 6 of it) torn -/
+example : Rec exP exVals exTr (tornDisk tear exD1 (opsOf (exSvO ++ histOps Quirks.fixed exD1 2) [.model 1, .optim 1]) 6) :=
+  C16_rec_step_torn_any_order exVals exTr exD1 exD1_rec 1 (by decide) (by decide)
+    (exP_inj.safeAt exVals 1) (exP_inj.sep exVals 1) exSvO exSvO_shuffle [.model 1, .optim 1] (by decide) 6
+    (by intro e h; simp [opsOf, exSvO, pipeO, pipeM] at h)
+
+example := C16_rec_full_any_order exVals exTr exD1 1 (recAt_of_recOk (by decide) (by decide)) (by decide)
+  (exP_inj.safeAt exVals 1) (exP_inj.sep exVals 1) exSvO exSvO_shuffle [.optim 1, .model 1] (by decide)
+
+/-- the matcher on an observation as the harness makes it: no-op calls dropped, the model's temp file created
+and written, the optimizer's created and half-written, both removed again while the interrupt unwinds -/
+example : (crashMatch (updateOrders Quirks.fixed exP exVals 1 exD1 (U exTr 2) []) exD1
+    [.mktemp 1, .write 1 (.model 5), .mktemp 2] (some (.write 2 .torn))).isSome = true := by
+  simp [crashMatch, updateOrders, planUpdate, mainOrders, saveOrders, shuffles, pipeM, pipeO, effective, FsOp.noop,
+    opsOf, histOps, histLines, reorder]
+  decide
+
+/-- `C16_crashMatch_rec` with all its hypotheses on that observation: whatever order the matcher settles on, the
+disk the driver reports — the half-written temp file included, both temp files removed again while the
+interrupt unwinds — is recoverable -/
+example (L : List FsOp)
+    (hm : crashMatch (updateOrders Quirks.fixed exP exVals 1 exD1 (U exTr 2) []) exD1
+      [.mktemp 1, .write 1 (.model 5), .mktemp 2] (some (.write 2 .torn)) = some L) :
+    Rec exP exVals exTr (exec (crashDisk exD1 L [.mktemp 1, .write 1 (.model 5), .mktemp 2] (some (.write 2 .torn)))
+      [.remove (.tmp 2), .remove (.tmp 1)]) :=
+  C16_crashMatch_rec exVals exTr exD1 exD1_rec 1 (by decide) (by decide) (exP_inj.safeAt exVals 1)
+    (exP_inj.sep exVals 1) [] _ _ L hm (by decide) _ (by decide)
+
+/-- a lifetime on `exD1` (leftover temp file, 1 epoch recorded) killed after 7 calls of the update of epoch 2 made
+in the order `exSvX`, and the run resumed from the blank disk through two such lifetimes -/
+theorem exKilled : KilledAny Quirks.fixed exP exVals exTr exD1
+    (exec exD1 ((opsOf (exSvX ++ histOps Quirks.fixed exD1 2) (reorder (cleanSet exP exVals 1 exD1) [.optim 1])).take 7)) :=
+  KilledAny.mk (k := 1) (s := U exTr 1) (k' := 1) (s' := U exTr 1) (d1 := exD1) [.optim 1] _ 7 false
+    (by decide) (RunsAny.refl _ _ _) (by decide)
+    (mem_updateOrders_of_shuffle (exP_inj.safeAt exVals 1) exD1 (U exTr 2) [.optim 1] exSvX_shuffle)
+
+example := C16_rec_killed_any_order exVals (exP_inj.safeFmt exVals) exTr exD1 _ exD1_rec exKilled
+
+/-- the update of epoch `k+1` on disk `d` with the optimizer's pipeline completely before the model's -/
+def oFirst (d : Disk) (k : Nat) : List FsOp :=
+  opsOf ((pipeO exP d (k + 1) (U exTr (k + 1)) ++ pipeM exP d (k + 1) (U exTr (k + 1))) ++
+    histOps Quirks.fixed d (k + 1)) (reorder (cleanSet exP exVals k d) [])
+theorem oFirst_mem (d : Disk) (k : Nat) :
+    oFirst d k ∈ updateOrders Quirks.fixed exP exVals k d (U exTr (k + 1)) [] :=
+  mem_updateOrders_of_shuffle (exP_inj.safeAt exVals k) d _ [] (Shuffle.append_swap _ _)
+
+/-- from the blank disk: a first lifetime killed after 6 calls of the first update (optimizer first: its checkpoint
+is in place, the model's temp file is created and still empty), then a lifetime that makes all three updates, optimizer
+first every time -/
+def exK1 : Disk := exec Disk.blank ((oFirst Disk.blank 0).take 6)
+theorem exK1_killed : KilledAny Quirks.fixed exP exVals exTr Disk.blank exK1 :=
+  KilledAny.mk (k := 0) (s := St.init) (k' := 0) (s' := St.init) (d1 := Disk.blank) [] _ 6 false
+    (by decide) (RunsAny.refl _ _ _) (by decide) (oFirst_mem Disk.blank 0)
+def exR1 : Disk := exec exK1 (oFirst exK1 0)
+def exR2 : Disk := exec exR1 (oFirst exR1 1)
+def exR3 : Disk := exec exR2 (oFirst exR2 2)
+theorem exRuns : RunsAny Quirks.fixed exP exVals exTr 0 St.init exK1 3 (U exTr 3) exR3 :=
+  .step [] (oFirst exK1 0) (by decide) (oFirst_mem exK1 0)
+    (.step [] (oFirst exR1 1) (by decide) (oFirst_mem exR1 1)
+      (.step [] (oFirst exR2 2) (by decide) (oFirst_mem exR2 2) (.refl _ _ _)))
+
+example := C16_resume_any_order exVals (exP_inj.safeFmt exVals) exTr (by decide) exK1
+  (.cons exK1_killed (.nil _)) 0 St.init (U exTr 3) exR3 (by decide) exRuns
+
+example : exK1.files.get (.optim 1) = some (.optim ⟨1, 0⟩) ∧ exK1.files.get (.model 1) = none ∧
+    exK1.files.get (.tmp 0) = some .empty ∧ exK1.csv = none ∧
+    exR3.csv = some [.header, .row 1, .row 2, .row 3] ∧ recOk exP exVals exTr exR3 = true := by decide
 
 end PdtVerif.Checkpoint
